@@ -758,10 +758,19 @@ def a7(prog, ctx):
         sh = loops.for_shape(lp_)
         if loops.covers_range(sh, 0, "kf->length"):
             ctx.ok("A7", "econf_getKeys scans every entry in order", lp_.where, sh.describe())
+        elif not sh.ok:
+            sh2 = loops.index_shape(lp_)
+            if sh2.ok and sh2.step > 0 and sh2.start == "0" and sh2.bound == "kf->length":
+                # a further conjunct (`&& j < tmp`: all the keys counted before have been copied) can only end the scan early
+                ctx.inconclusive("A7", "econf_getKeys scans every entry in order", lp_.where, "%s, with a further condition in the loop test" % sh2.describe())
+            else:
+                ctx.inconclusive("A7", "econf_getKeys scans every entry in order", lp_.where, "loop is %s" % sh.describe())
         else:
             ctx.fail("A7", "econf_getKeys scans every entry in order", lp_.where, "loop is %s" % sh.describe(), key="keys-loop:%d" % kl.index(lp_))
     ctx.floor("C11 loops of econf_getKeys", len(kl), 2)
     cmp_ = [c for c in k.calls(("strcmp", "strncmp", "strcasecmp")) if any(".group" in render(a) for a in c.call_args())]
+    if len(cmp_) > 1 and len(set(render(c) for c in cmp_)) == 1:
+        cmp_ = cmp_[:1]          # the same test in a counting pass and in a copying pass
     if len(cmp_) == 1 and cmp_[0].j["callee"] == "strcmp" and "group" in [render(a) for a in cmp_[0].call_args()]:
         ctx.ok("A7", "econf_getKeys filters by section equality", cmp_[0].where, render(cmp_[0]))
     else:
